@@ -58,6 +58,9 @@ def attr_hist(case, fail):
     props = set()
     if kind.startswith("ledger"):
         props = {"C05"}
+        if kind in ("ledger.cells", "ledger.double_drop"):
+            # an operation that destroys elements it was supposed to keep in place also fails its own contract
+            props |= opp
     elif kind == "res":
         props = set(opp)
     elif kind == "held":
@@ -85,14 +88,16 @@ def hist_key(case):
     return [last["op"], last["a"], pre.get("nc", 0), pre.get("nr", 0), [s["op"] for s in steps[:-1]][-3:]]
 
 
-def hist_tlc_edges(ctx, name, maxc, maxr, workers=1, ops=()):
-    cfg = cfg_text(constants={"MaxC": maxc, "MaxR": maxr, "Emit": True, "Walk": False, "WalkLen": 0, "EmitOps": set(ops)},
+def hist_tlc_edges(ctx, name, maxc, maxr, workers=1, ops=(), faults=()):
+    cfg = cfg_text(constants={"MaxC": maxc, "MaxR": maxr, "Emit": True, "Walk": False, "WalkLen": 0, "EmitOps": set(ops),
+                              "Faults": set(faults)},
                    constraints=["Bounded"], view="View", invariants=["ShapeOK", "HandleOK", "GoneIsEmpty"])
     return ctx.tlc_run(name, "TooDeeMC", cfg, workers=workers, coverage=True)
 
 
 def hist_tlc_walks(ctx, name, maxc, maxr, num, depth):
-    cfg = cfg_text(constants={"MaxC": maxc, "MaxR": maxr, "Emit": True, "Walk": True, "WalkLen": depth, "EmitOps": set()},
+    cfg = cfg_text(constants={"MaxC": maxc, "MaxR": maxr, "Emit": True, "Walk": True, "WalkLen": depth, "EmitOps": set(),
+                              "Faults": set()},
                    constraints=["Bounded"], invariants=["ShapeOK", "HandleOK", "GoneIsEmpty", "WalkEmit"])
     return ctx.tlc_run(name, "TooDeeMC", cfg, workers=1, simulate="num=%d" % num, seed=ctx.seed, depth=depth + 1)
 
@@ -590,6 +595,87 @@ def p_C20(ctx):
 
 
 
+# --------------------------------------------------------------------------------------
+# faults and leaks (C11, C12): TLC enumerates the fault points, the real outcome is judged by TooDeeTrace.tla
+# --------------------------------------------------------------------------------------
+def fault_kind_of_case(case):
+    for st in case["steps"]:
+        f = st.get("fault")
+        if f:
+            return f["kind"], st["op"]
+    return None, None
+
+
+def attr_fault_replay(case, fail):
+    fk, fop = fault_kind_of_case(case)
+    if fk is None:
+        return attr_hist(case, fail)
+    step = fail.get("step", -1)
+    nsteps = len(case["steps"])
+    if 0 <= step < nsteps - 1:
+        return attr_hist(case, fail)      # a divergence before the fault belongs to the ordinary property
+    props = {"C12"} if fk == "forget" else {"C11"}
+    return props, {"family": "fault", "op": fop, "kind": fail["kind"], "fault": fk}
+
+
+def attr_fault_event(case, ev):
+    fk, fop = (None, None) if case is None else fault_kind_of_case(case)
+    f = ev.get("fault", {})
+    if fk is None:
+        # an ordinary history: use the op's own property
+        fake = {"step": -1, "kind": "proj", "detail": {}}
+        op = ev.get("ev")
+        props = set(HIST_OP_PROPS.get(op, set())) | {"C01", "C05"}
+        return props, {"family": "trace", "op": op, "kind": "trace_rejected"}
+    props = {"C12"} if fk == "forget" else {"C11"}
+    site = None
+    for st in case["steps"]:
+        if st.get("fault"):
+            site = st["fault"].get("site") if st["fault"]["kind"] == "panic_at" else st["fault"].get("lie")
+    sig = {"family": "fault", "op": fop, "kind": "trace_rejected", "fault": fk, "site": site, "at_event": ev.get("ev")}
+    return props, sig
+
+
+def fault_key(case):
+    st = case["steps"][-1]
+    pre = case["steps"][-2]["x"] if len(case["steps"]) > 1 else {"nc": 0, "nr": 0}
+    return [st["op"], st["a"], st.get("fault"), pre.get("nc"), pre.get("nr"), [s["op"] for s in case["steps"][:-1]][-4:]]
+
+
+def p_C11(ctx):
+    ctx.rule = ("for every operation that runs caller code and every reachable shape/index: the k-th call into the supplied iterator's "
+                "next/next_back/len panics (k = 0..n), the iterator lies about its length (one short, one long, usize::MAX), the k-th Clone / "
+                "Default / Drop / comparator call panics; the panic is caught, the array is observed, then used further (push_row, remove_col + "
+                "drain, fill, clone, drop). The recorded events are validated by TLC against TooDeeTrace.tla: the post-fault state must satisfy "
+                "PostFaultOK (shape invariant, every cell live and from before-or-supplied, no duplicates) and everything after it must follow "
+                "the history machine from that state, with no element dropped twice. distinct by (op, args, fault point, shape, prefix tail)")
+    ctx.assumptions = HIST_ASSUME + ["std's unwinding semantics for panics inside element destructors"]
+    m = 3 if ctx.quick else 4
+    r = hist_tlc_edges(ctx, "faults", m, m, ops=("none",), faults=("iter", "clone", "default", "drop", "cmp"), workers=4)
+    ctx.count_nontrivial(r.cases_path, fault_key)
+    ctx.sample_from(r.cases_path)
+    combos = [("dev", "elem", 0), ("release", "elem", 1)] + ([] if ctx.quick else [("dev", "elem", 2), ("dev", "zst", 0), ("release", "u32", 0)])
+    for prof, elem, cap in combos:
+        ctx.replay_and_validate(r.cases_path, attr_fault_replay, attr_fault_event, profile=prof, elem=elem, cap=cap, label="faults")
+
+
+def p_C12(ctx):
+    ctx.rule = ("every drain (remove_row / pop_row / remove_col / pop_col at every index of every shape) and the by-value iterator leaked with "
+                "mem::forget after taking 0..n items from either end in every order, and every destructor-less borrow (rows, rows_mut, col, "
+                "col_mut, cells, cells_mut, view, view_mut) leaked after 0..2 items; the array is observed and used further; the recorded "
+                "events are validated by TLC against TooDeeTrace.tla (PostFaultOK: shape invariant, cells from before, no duplicates, nothing "
+                "dropped twice then or later). distinct by (shape, removed index, consumption stage)")
+    ctx.assumptions = HIST_ASSUME
+    m = 3 if ctx.quick else 4
+    r = hist_tlc_edges(ctx, "leaks", m, m, ops=("leak_borrow",), faults=("forget",), workers=4)
+    ctx.count_nontrivial(r.cases_path, fault_key)
+    ctx.sample_from(r.cases_path)
+    combos = [("dev", "elem", 0), ("release", "elem", 1), ("dev", "zst", 0)] + ([] if ctx.quick else [("dev", "u32", 2), ("release", "zst", 1)])
+    for prof, elem, cap in combos:
+        ctx.replay_and_validate(r.cases_path, attr_fault_replay, attr_fault_event, profile=prof, elem=elem, cap=cap, label="leaks")
+
+
+
 PIPELINES = {
     "C01": p_C01,
     "C05": p_C05,
@@ -598,6 +684,7 @@ PIPELINES = {
     "C08": p_C08, "C09": p_C09, "C10": p_C10,
     "C18": p_C18, "C19": p_C19,
     "C20": p_C20,
+    "C11": p_C11, "C12": p_C12,
     "C02": p_C02, "C03": p_C03, "C04": p_C04, "C13": p_C13, "C14": p_C14, "C15": p_C15, "C16": p_C16, "C17": p_C17,
 }
 
@@ -611,6 +698,14 @@ def rerun(prop, path):
         f.write(json.dumps(rec["case"]) + "\n")
     n, fails = core.replay(tmp, profile=rec.get("profile", "dev"), elem=rec.get("elem", "elem"), cap=rec.get("cap", 0),
                            extra_args=rec.get("extra_args", ()))
+    if rec.get("trace") and not fails:
+        logp = tmp + ".events"
+        if os.path.exists(logp):
+            os.unlink(logp)
+        core.replay(tmp, profile=rec.get("profile", "dev"), elem=rec.get("elem", "elem"), cap=rec.get("cap", 0), extra_args=("--log", logp))
+        ok, rejected, _ = core.validate_trace(os.path.dirname(path), "rerun", rec.get("trace_module", "TooDeeTrace"), logp,
+                                              invariants=("ShapeOK", "HandleOK"))
+        fails = [r["event"] for r in rejected]
     os.unlink(tmp)
     if fails:
         print(json.dumps(fails, indent=1))
